@@ -8,7 +8,9 @@
          branch (consistency check, `ours` of OnInconsistentRA), shutdown (final: a copy of the configuration with
          DefaultLifetime = 0);
      Metrics.constScrape (metrics.go): reads the flag per interface per scrape, exports the forwarding gauge and
-         one misconfiguration sample per reported misconfiguration;
+         one misconfiguration sample per reported misconfiguration; for an interface that does not advertise
+         (monitoring or unused: `if ifi.Advertise` is false) RouterAdvertisement is NOT called, `ra` and `ms` are the
+         nil values of that loop iteration: path ScrapeIdle;
      crhttp.Handler.interfaces (handler.go): reads the flag per advertising interface per request, discards the
          misconfigurations ("TODO: plumb in misconfigurations").
 
@@ -29,26 +31,29 @@ Definition finalize (forwarding : bool) (r : ra) : ra * list misconf :=
   else (r, []).
 
 (* every place which generates an RA *)
-Inductive path := Initial | Periodic | Solicited | Final | Verify | Scrape | Api.
+Inductive path := Initial | Periodic | Solicited | Final | Verify | Scrape | Api
+  | ScrapeIdle.   (* constScrape's visit of an interface with Advertise = false *)
 
 Definition path_eqb (a b : path) : bool :=
   match a, b with
   | Initial, Initial | Periodic, Periodic | Solicited, Solicited | Final, Final
-  | Verify, Verify | Scrape, Scrape | Api, Api => true
+  | Verify, Verify | Scrape, Scrape | Api, Api | ScrapeIdle, ScrapeIdle => true
   | _, _ => false
   end.
 
 (* the router lifetime of the configuration which the path hands to RouterAdvertisement: shutdown() copies
-   a.cfg and sets DefaultLifetime = 0, every other path uses the configured value *)
+   a.cfg and sets DefaultLifetime = 0, every other path uses the configured value; the scrape of an interface
+   that does not advertise hands nothing to it (no RA, no misconfigurations: whatever the interface's stanza
+   says, there is no lifetime to override) *)
 Definition path_lifetime (p : path) (configured : dur) : dur :=
-  match p with Final => 0 | _ => configured end.
+  match p with Final | ScrapeIdle => 0 | _ => configured end.
 
 (* where a reported misconfiguration is surfaced on a path *)
 Inductive surface := SLog | SGauge | SNone.
 Definition path_surface (p : path) : surface :=
   match p with
   | Initial | Periodic | Solicited | Final | Verify => SLog    (* buildRA: a.logf(...) per misconfiguration *)
-  | Scrape => SGauge                                           (* collectMetrics: c(1, iface, "interface_not_forwarding") *)
+  | Scrape | ScrapeIdle => SGauge                              (* collectMetrics: c(1, iface, "interface_not_forwarding") per entry of Misconfigurations *)
   | Api => SNone                                               (* handler.go: ra, _, err := iface.RouterAdvertisement(fwd) *)
   end.
 
@@ -58,8 +63,8 @@ Record out := mkOut {
   o_ra : ra;                     (* the RA sent / compared / reported / rendered *)
   o_misconf : bool;              (* RouterAdvertisement returned InterfaceNotForwarding *)
   o_logged : bool;               (* the misconfiguration log line was written *)
-  o_gauge : option bool;         (* Scrape only: the misconfiguration sample (value 1) is present *)
-  o_fwd_gauge : option bool;     (* Scrape only: value of corerad_interface_forwarding *)
+  o_gauge : option bool;         (* Scrape / ScrapeIdle only: the misconfiguration sample (value 1) is present *)
+  o_fwd_gauge : option bool;     (* Scrape / ScrapeIdle only: value of corerad_interface_forwarding *)
   o_reads : N                    (* State.IPv6Forwarding calls made for this generation *)
 }.
 
@@ -73,7 +78,7 @@ Definition gen (i : N) (p : path) (base : ra) (fwd : bool) : out :=
   mkOut i p r reported
         (match path_surface p with SLog => reported | _ => false end)
         (match path_surface p with SGauge => Some reported | _ => None end)
-        (match p with Scrape => Some fwd | _ => None end)
+        (match p with Scrape | ScrapeIdle => Some fwd | _ => None end)
         1%N.
 
 (* Events: the environment flips the per-interface sysctl, or some path generates an RA. *)
